@@ -22,7 +22,7 @@ ASSUMPTIONS = ['unit cells are bounded by pairs of parallel planes listed pairwi
 
 def plan(tier):
     q = tier == 'quick'
-    return [('monitor', 200 if q else 3000, {}), ('optlattice', 60 if q else 600, {}), ('model', 50 if q else 800, {}),
+    return [('monitor', 200 if q else 3000, {}), ('optlattice', 200 if q else 1500, {}), ('model', 50 if q else 800, {}),
             ('degenerate', 6 if q else 40, {})]
 
 
@@ -38,7 +38,7 @@ def _known(d, res):
 
 def run_case(stream, seed, ctx, params):
     rng = random.Random(seed)
-    kind = rng.choice(['rect1', 'rect2', 'rect2', 'rect3', 'skew2'])
+    kind = rng.choice(['rect1', 'rect2', 'rect2', 'rect3', 'skew2', 'rppmac', 'boxmac'])
     d = U.build_universe_deck(rng, depth=rng.randint(1, 2), macro_p=0.0, tr_p=0.0, fill_tr_p=0.4, trcl_p=0.2,
                               reuse_p=0.3, lattice_p=0.7, lat_kind=kind, lat_tr_p=0.35, lat_trcl_p=0.25)
     args = random_options(rng)
@@ -69,6 +69,39 @@ def run_case(stream, seed, ctx, params):
             d.lattice_opts.append('%d,%s' % (c.id, ','.join('%d:%d' % r for r in c.fill['ranges'])))
             if len(c.fill['ranges']) > 3:
                 return None
+        if rng.random() < 0.5:
+            # a copy of a lattice cell written LIKE n BUT U=…, with --lattice ranges of its own: the ranges of the
+            # copy are those given for the number of the copy, not those of cell n
+            import copy
+            base = rng.choice(lat)
+            u2 = max(c.u for c in d.cells) + rng.choice([1, 3])
+            ranges = []
+            for lo, hi in base.fill['ranges']:
+                if hi == lo and len(base.fill['ranges']) > 1:
+                    ranges.append((lo, hi))
+                else:
+                    lo2 = lo + rng.choice([-1, 0, 1, 2])
+                    ranges.append((lo2, lo2 + rng.choice([0, 1, 2])))
+            if all(a == b for a, b in ranges):
+                ranges[0] = (ranges[0][0], ranges[0][0] + 1)
+            n_el = 1
+            for lo, hi in ranges:
+                n_el *= hi - lo + 1
+            c2 = D.Cell(max(c.id for c in d.cells) + 1, base.expr, mat=base.mat, rho=base.rho, imp=base.imp, u=u2,
+                        fill={'ranges': ranges, 'us': [base.fill['us'][0]] * n_el, 'tr': copy.deepcopy(base.fill.get('tr'))},
+                        lat=base.lat, trcl=base.trcl)
+            for k in ('fill_num', 'fill_star', 'trcl_num', 'trcl_star', 'fill_by_option'):
+                if k in base.hints:
+                    c2.hints[k] = base.hints[k]
+            c2.hints['raw'] = '%d %s %d %s u=%d' % (c2.id, rng.choice(['like', 'LIKE']), base.id, rng.choice(['but', 'BUT']), u2)
+            d.lattice_opts.append('%d,%s' % (c2.id, ','.join('%d:%d' % r for r in ranges)))
+            hosts = [c for c in d.cells if c.u == 0 and c.fill is None and c.imp != 0] or \
+                    [c for c in d.cells if c.fill is not None and c.fill.get('u') == base.u]
+            if hosts:
+                host = rng.choice(hosts)
+                host.mat, host.rho = 0, None
+                host.fill = {'u': u2, 'tr': host.fill.get('tr') if host.fill else None}
+                d.cells.append(c2)
     r = run_deck(ctx, stream, d, args, rng, npts=params.get('npts', 150), check_model=(stream == 'model'),
                  known_classes=_known)
     if r is not None and not any(c.lat and len(c.fill['us']) > 1 for c in d.cells):
